@@ -75,7 +75,14 @@ fn arrange(cols: Vec<(String, Vec<String>)>, order: &[u8], extra: &[u8], n_rows:
                 _ => String::new(),
             })
             .collect();
-        arranged.insert(at, (format!("extra_col_{}", j), vals));
+        // extra columns may carry names that *look* like coordinates or lengths (with numeric
+        // values): only the documented column names count
+        let name = if n_rows % 2 == 0 {
+            ["lon", "lat", "longitude", "latitude", "length", "dist"][(j + n_rows / 2) % 6].to_string()
+        } else {
+            format!("extra_col_{}", j)
+        };
+        arranged.insert(at, (name, vals));
     }
     let header: Vec<String> = arranged.iter().map(|(n, _)| n.clone()).collect();
     let rows: Vec<Vec<String>> = (0..n_rows)
@@ -95,7 +102,7 @@ impl Prop for C15 {
         "C15"
     }
     fn rule(&self) -> String {
-        "generated: networks (7 shapes incl. stars with degree up to 12+, parallel edges, self loops, isolated vertices) written as CSV with the edge columns in any order plus 0-3 extra columns, the vertex columns in any order plus 0-3 extra columns, with/without trailing newline, gzip (.gz) or plain independently per file, explicit or scanned counts, coordinates with 0-7 decimal digits; per-edge speed, heading and road-class tables (plain or gzip). Oracle: the reference adjacency list built from the same rows; every Graph accessor, both adjacency views, vertex coordinates (text parsed as f32), gzip = plain, table row i = edge i. non-trivial = some vertex with in- or out-degree >= 5 and a file with extra/reordered columns or gzip".to_string()
+        "generated: networks (7 shapes incl. stars with degree up to 12+, parallel edges, self loops, isolated vertices) written as CSV with the edge columns in any order plus 0-3 extra columns, the vertex columns in any order plus 0-3 extra columns, with/without trailing newline, gzip (.gz) or plain independently per file, explicit or scanned counts, zero-length edges, extra columns named like coordinates, the same paths holding a shorter network first, coordinates with 0-7 decimal digits; per-edge speed, heading and road-class tables (plain or gzip). Oracle: the reference adjacency list built from the same rows; every Graph accessor, both adjacency views, vertex coordinates (text parsed as f32), gzip = plain, table row i = edge i. non-trivial = some vertex with in- or out-degree >= 5 and a file with extra/reordered columns or gzip".to_string()
     }
     fn cases(&self, tier: Tier) -> u32 {
         tier.pick(20_000, 400_000)
@@ -199,6 +206,16 @@ impl Prop for C15 {
         let load = |gz_e: bool, gz_v: bool, tag: &str| -> Result<Graph, String> {
             let ep = dir.file(&name(&format!("edges{}", tag), gz_e));
             let vp = dir.file(&name(&format!("vertices{}", tag), gz_v));
+            // the same paths first hold a shorter network (header + first two rows) that is loaded
+            // and discarded: nothing learnt about a path may survive a change of the file
+            let head = |t: &str| t.lines().take(3).map(|l| format!("{}\n", l)).collect::<String>();
+            if write_text(&ep, &head(&edge_text), gz_e).is_ok() && write_text(&vp, &head(&vertex_text), gz_v).is_ok() {
+                let mut cfg0 = serde_json::Map::new();
+                cfg0.insert("edge_list_input_file".into(), json!(ep.to_string_lossy().to_string()));
+                cfg0.insert("vertex_list_input_file".into(), json!(vp.to_string_lossy().to_string()));
+                cfg0.insert("verbose".into(), json!(false));
+                let _ = crate::engine::guard(|| routee_compass::app::compass::config::graph_builder::DefaultGraphBuilder::build(&serde_json::Value::Object(cfg0)));
+            }
             write_text(&ep, &edge_text, gz_e).map_err(|e| e.to_string())?;
             write_text(&vp, &vertex_text, gz_v).map_err(|e| e.to_string())?;
             // through the application's graph builder ([graph] section as JSON); counts are
